@@ -406,6 +406,14 @@ def check_neighbor(ctx):
     ok_small = small.get("np.zeros((0,))") == [(True, None)] and small.get("np.full(1, np.nan)") == [(False, True)]
     ctx.decide(ok_small, "NEIGHBOR", site + ":small", fi, "0 droplets → empty array, exactly 1 droplet → NaN, decided before the tree query",
                f"emulsions with fewer than two droplets are not answered with an empty array (len 0) / NaN (len 1): cases {small}")
+    # the k-d tree query uses the Euclidean metric (Minkowski order 2, the default) and exact search
+    for c_ in [c for c in ast.walk(fi.node) if isinstance(c, ast.Call) and isinstance(c.func, ast.Attribute) and c.func.attr == "query"]:
+        pk = next((k.value for k in c_.keywords if k.arg == "p"), c_.args[3] if len(c_.args) > 3 else None)
+        ek = next((k.value for k in c_.keywords if k.arg == "eps"), c_.args[2] if len(c_.args) > 2 else None)
+        okq = (pk is None or U(pk) in ("2", "2.0")) and (ek is None or U(ek) in ("0", "0.0"))
+        ctx.decide(okq, "NEIGHBOR", site + ":metric", (fi, c_), "neighbours are searched exactly and in the Euclidean metric",
+                   f"`{U(c_)[:70]}` searches with Minkowski order p={U(pk) if pk is not None else 2} / eps={U(ek) if ek is not None else 0}: the neighbour and its distance are not those of the "
+                   "Euclidean distance matrix (in two or three dimensions the nearest-neighbour distances are not the row minima)")
     for q in (f"{EM}.Emulsion.get_neighbor_distances", f"{EM}.Emulsion.get_pairwise_distances"):
         g = m.func(q)
         d_ = g.default_of("subtract_radius")
